@@ -10,6 +10,13 @@ tangent, and the pre-image of the origin under a boost with dyadic entries
 Random floating-point data never reaches these branch boundaries (seeded
 change C11-r4-1: sign(b) == 0 in a 'stable' quadratic formula).
 
+Classes 9..11 put EXACTLY null vectors (Minkowski norm 0.0 in floating point:
+Pythagorean tuples (1,1,0), (5,3,4), (13,5,12), (3,1,2,2), ..., on random axes,
+sign-flipped, times powers of two) into the primary data: ideal endpoints of
+segments, ideal vertices of polygons, a null raw vector of a tangent vector.
+Generic ideal points (norm ~1e-17) never reach a `norm == 0` branch (seeded
+change C11-r5-1: normalize zeroes the rows of exactly zero norm).
+
 raw dicts have the format of gen/projobjs.draw (composite shape + unit shape).
 Homogeneous lifts are scaled by powers of two only, so that dividing by the
 time coordinate is exact.
@@ -24,7 +31,38 @@ SEG_CLASSES = ["q-origin", "p-origin", "axis-parallel-onto-axis", "orthogonal-at
 POLY_CLASSES = ["vertex-origin", "edge-onto-axis", "antipodal-vertices", "on-two-axes",
                 "orthogonal-at-vertex"]
 TAN_CLASSES = ["base-origin", "already-tangent", "axis-vector", "time-vector"]
-N_CLASSES = 9                      # 0..7 cycle through the lists above; 8 = boost pre-image
+N_CLASSES = 12                     # 0..7 cycle through the lists above; 8 = boost pre-image;
+#                                    9, 10, 11 = one / two / all exactly-null rows
+NULL_CLASSES = (9, 10, 11)
+NULL2 = [(1, 1, 0), (5, 3, 4), (13, 5, 12), (17, 8, 15), (25, 7, 24), (5, 4, 3), (13, 12, 5)]
+NULL3 = [(3, 1, 2, 2), (7, 2, 3, 6), (9, 1, 4, 8), (9, 4, 4, 7), (11, 2, 6, 9), (3, 2, 2, 1)]
+
+
+def null_vector(rng, n, flip=True):
+    """homogeneous vector of Minkowski norm exactly 0.0: a Pythagorean tuple on
+    random axes with random signs, times a power of two, time coordinate of
+    either sign."""
+    t = NULL3[int(rng.integers(0, len(NULL3)))] if n >= 3 and rng.random() < 0.5 \
+        else NULL2[int(rng.integers(0, len(NULL2)))]
+    v = np.zeros(n + 1)
+    v[0] = t[0]
+    axes = rng.choice(n, size=len(t) - 1, replace=False)
+    for a, x in zip(axes, t[1:]):
+        v[1 + int(a)] = x * float(rng.choice([-1.0, 1.0]))
+    v *= 2.0 ** int(rng.integers(-2, 3))
+    if flip and rng.random() < 0.5:
+        v = -v
+    assert rh.mink_sq(v) == 0.0
+    return v
+
+
+def distinct_null_vectors(rng, n, m):
+    """m exactly-null vectors, cyclically consecutive ones projectively distinct."""
+    while True:
+        V = np.stack([null_vector(rng, n) for _ in range(m)])
+        K = V[:, 1:] / V[:, :1]
+        if m == 1 or np.min(np.linalg.norm(K - np.roll(K, -1, axis=0), axis=-1)) > 0.2:
+            return V
 
 
 def dyadic_point(rng, n, rmax=0.85, nonzero=True, top=5):
@@ -92,6 +130,13 @@ def segment_unit(rng, n, c, spec=None):
     e = np.eye(n)
     if c == 8:
         return lift(dyadic_point(rng, n), rng), preimage_of_origin(n, spec, rng)
+    if c == 9:
+        return lift(dyadic_point(rng, n, nonzero=False), rng), null_vector(rng, n)
+    if c == 10:
+        return null_vector(rng, n), lift(dyadic_point(rng, n, nonzero=False), rng)
+    if c == 11:
+        V = distinct_null_vectors(rng, n, 2)
+        return V[0], V[1]
     name = SEG_CLASSES[c % len(SEG_CLASSES)]
     if name == "q-origin":
         pk, qk = dyadic_point(rng, n), np.zeros(n)
@@ -125,7 +170,14 @@ def polygon_unit(rng, n, c, m, spec=None):
         j = int(rng.integers(0, m))
         j1 = (j + 1) % m
         V = None
-        if c == 8:
+        if c in NULL_CLASSES:
+            V = np.stack([lift(k, rng) for k in K])
+            cnt = {9: 1, 10: 2, 11: m}[c]
+            Z = distinct_null_vectors(rng, n, cnt)
+            for t in range(cnt):
+                V[(j + t) % m] = Z[t]
+            K = V[:, 1:] / V[:, :1]
+        elif c == 8:
             V = np.stack([lift(k, rng) for k in K])
             V[j] = preimage_of_origin(n, spec, rng)
             K = V[:, 1:] / V[:, :1]
@@ -156,7 +208,12 @@ def tangent_unit(rng, n, c, spec=None):
     (projected vector clearly non-zero)."""
     e = np.eye(n + 1)
     while True:
-        if c == 8:
+        if c in NULL_CLASSES:
+            # the raw vector is exactly null (its tangential part is not)
+            P = lift({9: dyadic_point(rng, n), 10: np.zeros(n),
+                      11: nz(rng) * np.eye(n)[int(rng.integers(0, n))]}[c], rng)
+            V = null_vector(rng, n)
+        elif c == 8:
             P = preimage_of_origin(n, spec, rng)
             V = rng.integers(-4, 5, size=n + 1) / 4.0
         else:
@@ -188,7 +245,7 @@ def draw(rng, kind, n, shape, c, spec=None, nv=None):
     units = list(np.ndindex(*shape))
 
     def cls(t):
-        return 8 if c == 8 else (c + t) % 8
+        return c if c >= 8 else (c + t) % 8
     if kind == "H.Segment":
         P = np.zeros(shape + (n + 1,))
         Q = np.zeros(shape + (n + 1,))
